@@ -19,6 +19,7 @@ FLOOR = {"quick": 3000, "thorough": 60000}
 REQUIRED_MONITORS = ("immut",)
 ASSUMPTIONS = ["key order is not JSON content (canonical form sorts keys); the output differ's pop/restore of 'data' is therefore only an observation",
                "objects the merger itself created (MergeDecisionBuilder internals) are not inputs"]
+OPTIMIZED_SHARDS = (0,)
 NSHARDS = 16
 SENT = "__vmon_sentinel__"
 
